@@ -3,11 +3,11 @@
 The agent gets ONLY the property text and its own scratch worktree; nothing from /verif."""
 import json, sys
 pid = sys.argv[1]
-variant = sys.argv[2] if len(sys.argv) > 2 else ""
-wt = "/tmp/mut-%s%s" % (pid, variant)
+single = len(sys.argv) > 2 and sys.argv[2] == "single"
+wt = "/tmp/mut-%s" % pid
 p = next(json.loads(l) for l in open('/verif/properties.jsonl') if json.loads(l)['id'] == pid)
 files = ", ".join(p['anchors']['files'])
-print(f"""You are testing a verification effort for the Rust project pendulum-project/ntpd-rs (an NTP/NTS daemon). You have your own scratch git worktree of the repository at {wt} (branch-less, at the project's current commit; a pre-built `target/` directory is inside it so `cargo test` is incremental). Work ONLY inside {wt}. Do not read or touch /verif or /repo. There is no network: always pass `--offline` to cargo.
+text = (f"""You are testing a verification effort for the Rust project pendulum-project/ntpd-rs (an NTP/NTS daemon). You have your own scratch git worktree of the repository at {wt} (branch-less, at the project's current commit; a pre-built `target/` directory is inside it so `cargo test` is incremental). Work ONLY inside {wt}. Do not read or touch /verif or /repo. There is no network: always pass `--offline` to cargo.
 
 Here is a semantic property the project is supposed to satisfy:
 
@@ -29,3 +29,8 @@ Deliver, for X in {{A, B}}, the directory {wt}/_out/X/ containing:
   - demo_cmd.txt    : one shell command, run from the worktree root, that runs just the demonstration (e.g. `cargo test -p ntp-proto --offline --lib my_demo_test`); exit status 0 = property holds
   - meta.json       : {{"property": "{pid}", "seed": "X", "summary": "...what was changed, file:line...", "why_it_breaks": "...", "needs_to_manifest": "...the specific input/sequence/interleaving/fault...", "ran": ["...commands you ran and their outcomes..."]}}
 At the end leave the worktree's tracked files clean (`git checkout -- . && git clean -fd -e _out -e target`), keeping only _out/ (and target/). If after real effort you can only produce one seed, deliver A only and say why. Finish with a short summary of both seeds.""")
+if single:
+    text = text.replace("produce TWO different, independent source changes (seed A and seed B — different code sites or different mechanisms)", "produce ONE source change (seed A)")
+    text = text.replace("each of which BREAKS", "which BREAKS").replace("For each seed also write", "Also write").replace("Deliver, for X in {A, B}, the directory", "Deliver the directory").replace("/_out/X/", "/_out/A/").replace('"seed": "X"', '"seed": "A"')
+    text = text.replace("If after real effort you can only produce one seed, deliver A only and say why. Finish with a short summary of both seeds.", "Run the full test suite at most twice in total (once on the clean tree, once with your change); the machine is shared. Finish with a short summary.")
+print(text)
